@@ -39,10 +39,14 @@ in 0..255.  In the model this is the split `parsePlan` (returns `R Plan`, contai
 
 /-- **Errors only before the first item.**  Iterating one spec is "parse, then enumerate": the
     result is an error exactly when the parse phase `parsePlan` fails, with that error, whatever
-    number of items is asked for — in particular also for `fuel = 0`, i.e. before anything has
-    been yielded; when the parse succeeds the items are the first `fuel` of the plan's whole
-    (non-empty) enumeration `Plan.all`. -/
-theorem nmap_errors_in_parse (F : Foreign) (fuel : Nat) (spec : List Char) :
+    positive number of items is asked for — the parse phase runs at the first `next()`, before
+    anything has been yielded; when the parse succeeds the items are the first `fuel` of the
+    plan's whole (non-empty) enumeration `Plan.all`.
+    `0 < fuel` was added after audit 2b finding 2: the earlier statement claimed the error "also
+    for `fuel = 0`", which is FALSE of the code (a generator does not run before the first
+    `next()`: `list(islice(iter_nmap_range('bad'), 0)) == []`); for `fuel = 0` see
+    `C17A2.nmap_take_zero`. -/
+theorem nmap_errors_in_parse (F : Foreign) (fuel : Nat) (_hf : 0 < fuel) (spec : List Char) :
     iterNmapRange F fuel spec = (parsePlan F spec).map (Plan.items fuel) ∧
     (∀ p, parsePlan F spec = .ok p → p.items fuel = p.all.take fuel ∧ p.all ≠ []) :=
   ⟨parseTargetSpec_eq_plan F fuel spec, fun p hp => ⟨items_eq_take p fuel, plan_all_ne_nil F spec p hp⟩⟩
@@ -54,7 +58,7 @@ theorem nmap_valid_iff_parse (F : Foreign) (spec : List Char) :
       match parsePlan F spec with
       | .ok _ => .ok true
       | .error e => if caught e then .ok false else .error e := by
-  rw [nmap_valid_iff_iter_ok F 1 (by omega) spec, (nmap_errors_in_parse F 1 spec).1]
+  rw [nmap_valid_iff_iter_ok F 1 (by omega) spec, (nmap_errors_in_parse F 1 (by omega) spec).1]
   cases parsePlan F spec <;> rfl
 
 theorem nmap_valid_true_iff (F : Foreign) (spec : List Char) :
@@ -85,7 +89,7 @@ theorem nmap_cidr_real (be : Backend) (fuel : Nat) (v p : Nat) (hv : v < 2 ^ 32)
       .ok ((((List.range (2 ^ (32 - p))).map (v / 2 ^ (32 - p) * 2 ^ (32 - p) + ·)).take fuel).map (fun a => ⟨4, a⟩)) := by
   have hns : '/' ∉ ntoa v := not_mem_of_contains_false (C03L.addr_noslash be 4 (Or.inl rfl) v hv)
   have hmem : '/' ∈ ntoa v ++ '/' :: dec p := by simp
-  rw [nmap_cidr (realForeign be) fuel _ hmem, split1_app '/' _ _ hns]
+  rw [nmap_cidr_model (realForeign be) fuel _ hmem, split1_app '/' _ _ hns]
   simp only [C03L.pyInt_dec]
   have hg : ¬ ¬ ((0 : Int) < (p : Int) ∧ (p : Int) < 33) := by omega
   simp only [hg, if_false]
@@ -119,7 +123,7 @@ theorem nmap_cidr_grammar (be : Backend) (fuel : Nat) (a t : List Char) (v p : N
   have hns : '/' ∉ a := cidrAddr_noslash ha
   have hv : v < 2 ^ 32 := cidrAddr_lt ha
   have hmem : '/' ∈ a ++ '/' :: t := by simp
-  rw [nmap_cidr (realForeign be) fuel _ hmem, split1_app '/' _ _ hns]
+  rw [nmap_cidr_model (realForeign be) fuel _ hmem, split1_app '/' _ _ hns]
   simp only [(pyInt_iff t _).2 ht]
   have hg : ¬ ¬ ((0 : Int) < (p : Int) ∧ (p : Int) < 33) := by omega
   simp only [hg, if_false]
@@ -142,11 +146,13 @@ example : CidrAddr "010. 0".toList 167772160 := by
 /-- **CIDR form, exception classes.**  For any spec containing '/': ValueError exactly when the
     text after the first '/' is not an `int()` literal (grammar `IntLit`: "x/y", a netmask
     "1.2.3.4/255.255.255.0", a second slash "1.2.3.4/8/9", an empty prefix "1.2.3.4/");
-    every other failure is AddrFormatError. -/
-theorem nmap_cidr_error_classes (be : Backend) (fuel : Nat) (spec : List Char) (h1 : '/' ∈ spec) :
+    every other failure is AddrFormatError.  (`0 < fuel`, here and in the three theorems that
+    follow, added after audit 2b finding 2: at `fuel = 0` the generator has not started and nothing
+    is raised, so the statements without it were FALSE of the code.) -/
+theorem nmap_cidr_error_classes (be : Backend) (fuel : Nat) (_hf : 0 < fuel) (spec : List Char) (h1 : '/' ∈ spec) :
     (iterNmapRange (realForeign be) fuel spec = .error .value ↔ ¬ ∃ z, IntLit (split1 '/' spec).2 z) ∧
     (∀ e, iterNmapRange (realForeign be) fuel spec = .error e → e = .value ∨ e = .addrFormat) := by
-  rw [nmap_cidr (realForeign be) fuel spec h1]
+  rw [nmap_cidr_model (realForeign be) fuel spec h1]
   cases hp : Py.pyInt 10 (split1 '/' spec).2 with
   | none =>
     refine ⟨⟨fun _ => ?_, fun _ => rfl⟩, fun e h => ?_⟩
@@ -180,13 +186,13 @@ theorem nmap_cidr_error_classes (be : Backend) (fuel : Nat) (spec : List Char) (
 /-- **Prefix outside 1..32**: whatever stands before the first '/', a prefix text that is an
     `int()` literal of a value outside 1..32 ("/0", "/33", "/128", a negative number, "/ 0_0") raises
     AddrFormatError — before `IPNetwork` is even called. -/
-theorem nmap_cidr_prefix_range (F : Foreign) (fuel : Nat) (a t : List Char) (z : Int) (ha : '/' ∉ a)
+theorem nmap_cidr_prefix_range (F : Foreign) (fuel : Nat) (_hf : 0 < fuel) (a t : List Char) (z : Int) (ha : '/' ∉ a)
     (ht : IntLit t z) (hz : ¬ (1 ≤ z ∧ z ≤ 32)) :
     iterNmapRange F fuel (a ++ '/' :: t) = .error .addrFormat ∧ validNmapRange F (a ++ '/' :: t) = .ok false := by
   have hmem : '/' ∈ a ++ '/' :: t := by simp
   have hit : ∀ fuel, iterNmapRange F fuel (a ++ '/' :: t) = .error .addrFormat := by
     intro fuel
-    rw [nmap_cidr F fuel _ hmem, split1_app '/' _ _ ha]
+    rw [nmap_cidr_model F fuel _ hmem, split1_app '/' _ _ ha]
     simp only [(pyInt_iff t z).2 ht]
     have hg : ¬ (0 < z ∧ z < 33) := by omega
     simp only [hg, not_false_eq_true, if_true]
@@ -195,17 +201,17 @@ theorem nmap_cidr_prefix_range (F : Foreign) (fuel : Nat) (a t : List Char) (z :
   simp [caught]
 
 example : iterNmapRange (realForeign .platform) 5 "10.0.0.0/0".toList = .error .addrFormat :=
-  (nmap_cidr_prefix_range _ 5 "10.0.0.0".toList "0".toList 0 (by decide) ((pyInt_iff _ _).1 (by decide)) (by decide)).1
+  (nmap_cidr_prefix_range _ 5 (by decide) "10.0.0.0".toList "0".toList 0 (by decide) ((pyInt_iff _ _).1 (by decide)) (by decide)).1
 example : iterNmapRange (realForeign .platform) 5 "10.0.0.0/33".toList = .error .addrFormat :=
-  (nmap_cidr_prefix_range _ 5 "10.0.0.0".toList "33".toList 33 (by decide) ((pyInt_iff _ _).1 (by decide)) (by decide)).1
+  (nmap_cidr_prefix_range _ 5 (by decide) "10.0.0.0".toList "33".toList 33 (by decide) ((pyInt_iff _ _).1 (by decide)) (by decide)).1
 example : iterNmapRange (realForeign .platform) 5 "::1/128".toList = .error .addrFormat :=
-  (nmap_cidr_prefix_range _ 5 "::1".toList "128".toList 128 (by decide) ((pyInt_iff _ _).1 (by decide)) (by decide)).1
+  (nmap_cidr_prefix_range _ 5 (by decide) "::1".toList "128".toList 128 (by decide) ((pyInt_iff _ _).1 (by decide)) (by decide)).1
 
 /-- **Second slash**: a '/' in the text after the first '/' makes it a non-literal: ValueError -/
-theorem nmap_cidr_second_slash (be : Backend) (fuel : Nat) (a t : List Char) (ha : '/' ∉ a) (ht : '/' ∈ t) :
+theorem nmap_cidr_second_slash (be : Backend) (fuel : Nat) (hf : 0 < fuel) (a t : List Char) (ha : '/' ∉ a) (ht : '/' ∈ t) :
     iterNmapRange (realForeign be) fuel (a ++ '/' :: t) = .error .value := by
   have hmem : '/' ∈ a ++ '/' :: t := by simp
-  rw [(nmap_cidr_error_classes be fuel _ hmem).1, split1_app '/' _ _ ha]
+  rw [(nmap_cidr_error_classes be fuel hf _ hmem).1, split1_app '/' _ _ ha]
   rintro ⟨z, hz⟩
   rcases intLit_charset t z hz '/' ht with h | h | h | h | ⟨d, h⟩
   · exact ws_not_special h (Or.inr (Or.inr (Or.inl rfl)))
@@ -217,11 +223,11 @@ theorem nmap_cidr_second_slash (be : Backend) (fuel : Nat) (a t : List Char) (ha
 /-- **IPv6 CIDRs are refused**: the text of an IPv6 address, '/', a prefix in 1..32 — the guard
     passes, `IPNetwork` builds an IPv6 network, the version guard raises AddrFormatError
     ("CIDR only support for IPv4!"); with a prefix above 32 `nmap_cidr_prefix_range` applies. -/
-theorem nmap_cidr_v6_rejected (be : Backend) (fuel : Nat) (v p : Nat) (hv : v < 2 ^ 128) (hp1 : 1 ≤ p) (hp : p ≤ 32) :
+theorem nmap_cidr_v6_rejected (be : Backend) (fuel : Nat) (_hf : 0 < fuel) (v p : Nat) (hv : v < 2 ^ 128) (hp1 : 1 ≤ p) (hp : p ≤ 32) :
     iterNmapRange (realForeign be) fuel (intToStr be 6 v ++ '/' :: dec p) = .error .addrFormat := by
   have hns : '/' ∉ intToStr be 6 v := not_mem_of_contains_false (C03L.addr_noslash be 6 (Or.inr rfl) v hv)
   have hmem : '/' ∈ intToStr be 6 v ++ '/' :: dec p := by simp
-  rw [nmap_cidr (realForeign be) fuel _ hmem, split1_app '/' _ _ hns]
+  rw [nmap_cidr_model (realForeign be) fuel _ hmem, split1_app '/' _ _ hns]
   simp only [C03L.pyInt_dec]
   have hg : ¬ ¬ ((0 : Int) < (p : Int) ∧ (p : Int) < 33) := by omega
   simp only [hg, if_false]
@@ -302,32 +308,43 @@ example : iterNmapRange (realForeign .platform) 7 "1.2.3.4:".toList = .error .ad
 
 /-- whether a spec iterates is what `valid_nmap_range` says about it (nmap.py's
     `iter_nmap_range` does not call `valid_nmap_range`; it runs the same generator on each
-    argument, so the spec at which a call fails is the first one `valid_nmap_range` rejects) -/
-theorem nmap_multi_valid (F : Foreign) (fuel : Nat) (s : List Char) :
+    argument, so the spec at which a call fails is the first one `valid_nmap_range` rejects).
+    `0 < fuel` added after audit 2b finding 2 (with `fuel = 0` nothing runs, so every spec
+    "iterates": the left-to-right direction was FALSE of the code there). -/
+theorem nmap_multi_valid (F : Foreign) (fuel : Nat) (hf : 0 < fuel) (s : List Char) :
     (∃ l, iterNmapRange F fuel s = .ok l) ↔ validNmapRange F s = .ok true := by
-  rw [nmap_valid_true_iff, (nmap_errors_in_parse F fuel s).1]
+  rw [nmap_valid_true_iff, (nmap_errors_in_parse F fuel hf s).1]
   cases parsePlan F s with
   | ok p => simp [Except.map]
   | error e => simp [Except.map]
+
+/-- the direction of `nmap_multi_valid` that holds for every `fuel`, 0 included (a spec that
+    `valid_nmap_range` accepts iterates without an exception however many items are asked for) -/
+theorem nmap_iter_ok_of_valid (F : Foreign) (fuel : Nat) (s : List Char) (h : validNmapRange F s = .ok true) :
+    ∃ l, iterNmapRange F fuel s = .ok l := by
+  obtain ⟨p, hp⟩ := (nmap_valid_true_iff F s).1 h
+  refine ⟨p.items fuel, ?_⟩
+  show parseTargetSpec F fuel s = _
+  rw [parseTargetSpec_eq_plan, hp]; rfl
 
 /-- **All specs fine**: `iter_nmap_range(*specs)` is the concatenation, in argument order, of
     the single-spec iterations, and raises nothing. -/
 theorem nmap_multi_all_ok (F : Foreign) (fuel : Nat) (specs : List (List Char))
     (h : ∀ s ∈ specs, validNmapRange F s = .ok true) :
     iterNmapRanges F fuel specs = (specs.flatMap (itemsOf F fuel), none) :=
-  ranges_all_ok F fuel specs (fun s hs => (nmap_multi_valid F fuel s).2 (h s hs))
+  ranges_all_ok F fuel specs (fun s hs => nmap_iter_ok_of_valid F fuel s (h s hs))
 
 /-- **First failing spec**: the items of all earlier specs, in order, have been yielded when the
     first spec that `valid_nmap_range` rejects raises its own exception — at the point where its
     items would start; later specs are never looked at. -/
-theorem nmap_multi_first_fail (F : Foreign) (fuel : Nat) (pre post : List (List Char)) (s : List Char)
+theorem nmap_multi_first_fail (F : Foreign) (fuel : Nat) (hf : 0 < fuel) (pre post : List (List Char)) (s : List Char)
     (hpre : ∀ x ∈ pre, validNmapRange F x = .ok true) (hs : validNmapRange F s ≠ .ok true) :
     ∃ e, iterNmapRange F fuel s = .error e ∧
       iterNmapRanges F fuel (pre ++ s :: post) = (pre.flatMap (itemsOf F fuel), some e) := by
   cases hit : iterNmapRange F fuel s with
-  | ok l => exact absurd ((nmap_multi_valid F fuel s).1 ⟨l, hit⟩) hs
+  | ok l => exact absurd ((nmap_multi_valid F fuel hf s).1 ⟨l, hit⟩) hs
   | error e =>
-    exact ⟨e, rfl, ranges_first_fail F fuel pre post s e (fun x hx => (nmap_multi_valid F fuel x).2 (hpre x hx)) hit⟩
+    exact ⟨e, rfl, ranges_first_fail F fuel pre post s e (fun x hx => nmap_iter_ok_of_valid F fuel x (hpre x hx)) hit⟩
 
 /-- the two situations are exhaustive -/
 theorem nmap_multi_cases (F : Foreign) (specs : List (List Char)) :
@@ -390,7 +407,7 @@ theorem nmap_octets_valid_iff (F : Foreign) (spec : List Char) (h1 : '/' ∉ spe
   · intro h
     apply Classical.byContradiction
     intro hn
-    rw [(nmap_rejects F 1 spec h1 h2 hn).2] at h
+    rw [(nmap_rejects F 1 (by omega) spec h1 h2 hn).2] at h
     cases h
   · intro h
     obtain ⟨full, hit, _⟩ := nmap_yields F 1 spec h1 h2 h
